@@ -269,6 +269,34 @@ let run (cmd : string) (a : v) : v =
       let prev = (match prev with L [S "identity"; _] -> mid fops | p -> mat_of p) in
       let per_rank = List.map (fun micros -> List.map (fun d -> tabm (one d)) (getl micros)) ranks in
       vmat n n (factor_update fops (getf alpha) prev per_rank)
+  | "kfac_run", L [I hook; I acc; fus; ius; L events] ->
+      let hp_of = function
+        | L [S "c"; I v] -> HConst (nat_of_int v)
+        | L [S "t"; L tbl] -> let a = Array.of_list (List.map (fun x -> geti x) tbl) in
+            HFn (fun st -> let i = int_of_nat st in nat_of_int (if i < Array.length a then a.(i) else a.(Array.length a - 1)))
+        | _ -> failwith "hp" in
+      let ev = function
+        | L [S "fwd"; I t] -> Fwd (t <> 0) | L [S "bwd"; I t] -> Bwd (t <> 0) | L [S "step"] -> Step
+        | L [S "reset"] -> ResetBatch | L [S "save"; I i] -> Save (i <> 0)
+        | L [S "load"; I ck; I c] -> Load (nat_of_int ck, c <> 0)
+        | L [S "setfus"; I v] -> SetFus (nat_of_int v) | L [S "setius"; I v] -> SetIus (nat_of_int v)
+        | L [S "fresh"] -> Fresh
+        | _ -> failwith "event" in
+      let vfid = function FNone -> S "none" | FVer (o, us) -> L [vnat o; vlist (fun (a, b) -> L [vnat a; vnat b]) us] in
+      let vopt = function None -> S "none" | Some n -> vnat n in
+      let vact = function
+        | UpdateA (st, pa) -> L [S "ua"; vnat st; vnat pa]
+        | UpdateG (st, pa) -> L [S "ug"; vnat st; vnat pa]
+        | ComputeInv (a, g, st) -> L [S "ci"; vfid a; vfid g; vnat st]
+        | Precondition (d, st) -> L [S "pre"; vfid d.s_a; vfid d.s_g; vnat d.s_step; vnat st]
+        | Saved c -> L [S "saved"; vnat c.k_steps; vopt c.k_fus; vopt c.k_ius;
+                         (match c.k_factors with None -> S "none" | Some (a, g) -> L [vfid a; vfid g])]
+        | ErrNoInverse -> L [S "err"] in
+      let cfg = { c_hook = (hook <> 0); c_acc = nat_of_int acc; c_fus0 = hp_of fus; c_ius0 = hp_of ius } in
+      let tr = krun_trace cfg [] (init (hp_of fus) (hp_of ius)) (List.map ev events) in
+      vlist (fun (acts, (((a, g), iv), st)) ->
+        L [ vlist vact acts; vfid a; vfid g;
+            (match iv with None -> S "none" | Some d -> L [vfid d.s_a; vfid d.s_g; vnat d.s_step]); vnat st ]) tr
   | _ -> failwith ("unknown command or bad argument: " ^ cmd)
 
 let () =
